@@ -367,6 +367,30 @@ func c07conns(r *Run) {
 	r.registerPeer(ps)
 	pc.Script = Partition(c, na, "client-part")
 	ps.Script = Partition(c, ns, "server-part")
+	// "All write sizes relative to the fragment size": in one run of four a single Write needs far more
+	// fragments than any window of the implementation (128 cached chunks / acknowledgements): the
+	// downstream fragment size is switched to a small value (the client's -m option does the same) and
+	// each side writes 130-300 fragments' worth in one call.
+	if c.Chance(1, 4, "many-fragments-per-write") {
+		f := uint32(20 + c.Pick(100, "small-fragment"))
+		var swErr error
+		swDone := false
+		go func() {
+			swErr = dc.SwitchFragmentSize(f)
+			swDone = true
+		}()
+		r.Drive(&NetPolicy{Whole: true}, func() bool { return swDone }, nil, 2*time.Minute, 10*time.Minute)
+		if !swDone || swErr != nil {
+			r.FailSig("handshake-on-clean-path", "mode=conns", "switching the downstream fragment size to %d on a loss-free path failed: done=%v %v", f, swDone, swErr)
+			return
+		}
+		ns = int(f) * (130 + c.Pick(170, "server-fragments"))
+		na = 100 * (130 + c.Pick(170, "client-fragments"))
+		pc.Script = []Op{{Kind: "write", N: na}}
+		ps.Script = []Op{{Kind: "write", N: ns}}
+		r.Info["many_fragments_per_write"] = fmt.Sprintf("downstream fragment %d, one server write of %d bytes, one client write of %d bytes", f, ns, na)
+		r.Count("many_fragment_writes")
+	}
 
 	pol := &NetPolicy{Reorder: false}
 	switch class {
